@@ -83,6 +83,10 @@ func main() {
 		dumpCensus(w)
 	case "selftest":
 		os.Exit(selftestMain(os.Args[2:]))
+	case "mutant":
+		os.Exit(mutantChild(os.Args[2:]))
+	case "matrix":
+		os.Exit(matrixMain(os.Args[2:]))
 	default:
 		usage()
 	}
@@ -151,14 +155,65 @@ func runCheck(id, tier string) (code int) {
 	}
 	if tier == "thorough" {
 		// the thorough tier also runs the checker's own sensitivity test for this property
-		code := selftestRun(id, 0, true)
-		if code != 0 {
-			run.Undecided("selftest", id, "", "checker self-test failed: a seeded overlay mutant was not reported (checker lost sensitivity)")
-		} else {
-			run.Note("checker self-test for %s passed", id)
+		res, _ := selftestRun(id, 3)
+		killed, skipped := 0, 0
+		for _, mr := range res {
+			switch mr.status {
+			case "killed":
+				killed++
+			case "skipped":
+				skipped++
+				run.Note("self-test operator %s skipped: %s", mr.m.Name, mr.detail)
+			default:
+				run.Undecided("selftest", mr.m.Name, mr.m.File, "checker self-test: overlay mutant "+mr.status+" — "+mr.detail)
+			}
 		}
+		run.Note("checker self-test for %s: %d overlay mutants, %d reported by the expected rule, %d skipped", id, len(res), killed, skipped)
+		run.selftest = map[string]any{"mutants": len(res), "killed": killed, "skipped": skipped}
 	}
 	return run.Finish(t0, seed, *meta, names)
+}
+
+// matrixMain: load the tree once and run every property's rules; print the new
+// failures per property (no evidence is written). Used to see which checks a
+// scratch change trips.
+func matrixMain(args []string) int {
+	w, err := LoadWorld("", nil)
+	if err != nil {
+		fmt.Println("UNDECIDED: cannot load:", err)
+		return 2
+	}
+	var ids []string
+	for id := range registry {
+		if len(args) == 0 {
+			ids = append(ids, id)
+		}
+	}
+	ids = append(ids, args...)
+	sort.Strings(ids)
+	code := 0
+	for _, id := range ids {
+		meta := registry[id]
+		if meta == nil {
+			continue
+		}
+		run := &Run{Prop: id, Tier: "quick", W: w, config: "default"}
+		func() {
+			defer func() {
+				if e := recover(); e != nil {
+					run.Fail("analyser", "panic", "", fmt.Sprint(e))
+				}
+			}()
+			meta.Run(run)
+		}()
+		nf := run.newFailures()
+		fmt.Printf("%s obligations=%d new-failures=%d\n", id, len(run.Obls), len(nf))
+		for _, k := range nf {
+			fmt.Printf("  %s FAIL %s\n", id, k)
+			code = 1
+		}
+	}
+	return code
 }
 
 func dump(args []string) {
